@@ -35,6 +35,8 @@ def split_nl(I, chars):
 def gen_ml_text(H, I, cfg, tag='c'):
     if cfg['gen'] == 'alpha':
         return gen_alpha(I, cfg['n'], cfg.get('alphabet', ALPHA), lenvar=True)
+    if cfg['gen'] == 'symcls':
+        return gen_text(I, cfg['n'], tag, tuple(cfg['classes']), lenvar=True)
     return gen_text(I, cfg['n'], tag, (1,) if cfg['gen'] == 'sym1' else (1, 2, 3), lenvar=True)
 
 
